@@ -181,6 +181,7 @@ type Effects struct {
 	callSitesOf map[*ssa.Function][]ssa.CallInstruction
 	Dead        map[*ssa.Function]map[*ssa.BasicBlock]bool
 	states      map[*ssa.Function]*fnState
+	DeadEdges   map[*ssa.Function]map[[2]*ssa.BasicBlock]bool
 }
 
 func NewEffects(p *Prog, scope map[*ssa.Function]bool) *Effects {
@@ -368,9 +369,17 @@ func (e *Effects) deadBlocks(fn *ssa.Function) map[*ssa.BasicBlock]bool {
 		live[b] = true
 		if iff, ok := terminator(b).(*ssa.If); ok {
 			if v, ok := e.constBool(iff.Cond, 0); ok {
+				if e.DeadEdges == nil {
+					e.DeadEdges = map[*ssa.Function]map[[2]*ssa.BasicBlock]bool{}
+				}
+				if e.DeadEdges[fn] == nil {
+					e.DeadEdges[fn] = map[[2]*ssa.BasicBlock]bool{}
+				}
 				if v {
+					e.DeadEdges[fn][[2]*ssa.BasicBlock{b, b.Succs[1]}] = true
 					walk(b.Succs[0])
 				} else {
+					e.DeadEdges[fn][[2]*ssa.BasicBlock{b, b.Succs[0]}] = true
 					walk(b.Succs[1])
 				}
 				return
